@@ -1198,6 +1198,13 @@ func (g *GoFakeS3) putBucketVersioning(bucket string, w http.ResponseWriter, r *
 		}
 	}
 
+	if in.Status == "" {
+		// No status named, no change of status (as above for backends without
+		// versioning): passed on, the backend would take anything that is
+		// not "Enabled" for a request to suspend.
+		return nil
+	}
+
 	g.log.Print(LogInfo, "PUT VERSIONING:", in.Status)
 	return g.versioned.SetVersioningConfiguration(bucket, in)
 }
